@@ -11,6 +11,7 @@ dependency edges), because that is what the cache's future behaviour depends on.
 from __future__ import annotations
 
 import gc
+import weakref
 
 from .. import env
 from ..core import Ctx, exc_site
@@ -222,8 +223,11 @@ def fx5():
     lb_t = urwid.Text("x")
     lbox = urwid.LineBox(lb_t)
     pad2 = urwid.Padding(lbox, "left", 6)
-    top = urwid.Pile([pile, pad2])
+    zt = urwid.Text("")
+    zpad = urwid.Padding(zt, "left", "pack")  # its child renders 0 columns wide while the text is empty
+    top = urwid.Pile([pile, pad2, zpad])
     ops = {
+        "zt.set_text": lambda: zt.set_text("ready" if zt.text == "" else ""),
         "inner.set_text": lambda: inner_t.set_text("inner" if inner_t.text == "in" else "in"),
         "pad.align": lambda: setattr(pad, "align", "right" if str(pad.align).endswith("left") or pad.align == "left" else "left"),
         "pad.width": lambda: setattr(pad, "width", 5 if pad.width == 7 else 7),
@@ -232,10 +236,10 @@ def fx5():
         "lb_t.set_text": lambda: lb_t.set_text("xy" if lb_t.text == "x" else "x"),
         "pad2.align": lambda: setattr(pad2, "align", "center"),
     }
-    widgets = [top, pile, pad, am, inner_t, other, pad2, lbox, lb_t]
+    widgets = [top, pile, pad, am, inner_t, other, pad2, lbox, lb_t, zpad, zt]
 
     def describe():
-        return (inner_t.text, str(pad.align), str(pad.width), repr(am.attr_map), other.text, lb_t.text, str(pad2.align))
+        return (inner_t.text, str(pad.align), str(pad.width), repr(am.attr_map), other.text, lb_t.text, str(pad2.align), zt.text)
 
     return Fixture(top, [((12,), False), ((15,), False), ((12,), True), ((9,), False)], ops, describe, widgets)
 
@@ -285,6 +289,8 @@ class St:
         self.held: list = []  # (canvas, snapshot at hand-out)
         self.outs: list = []  # observation outputs, in order
         self.shape = None
+        self.seen: dict = {}  # id(cached canvas) -> (weakref, snapshot when first seen in the cache)
+        self.alias_log: list = []
         # a running application has drawn the screen already: two initial renders, both kept alive
         for i in (1, 0):
             self.observe_render(i)
@@ -313,7 +319,35 @@ class St:
         except Exception as e:
             self.outs.append(("rows", i, ("EXC", type(e).__name__, str(e)[:120], exc_site(e))))
 
+    def track(self, op):
+        """every canvas in the cache was handed to a parent (or the screen) as finalized: it must keep the content it had when first seen"""
+        live = set()
+        for w, sizes in list(CanvasCache._widgets.items()):
+            for key, ref in list(sizes.items()):
+                c = ref()
+                if c is None:
+                    continue
+                live.add(id(c))
+                old = self.seen.get(id(c))
+                try:
+                    now = snapshot(c)
+                except Exception as e:  # noqa: BLE001
+                    now = ("EXC", type(e).__name__, 0, 0)
+                if old is not None and old[0]() is c:
+                    if now != old[1]:
+                        self.alias_log.append((type(w).__name__, key[1], tuple(old[1][2:]), tuple(now[2:]), op))
+                        self.seen[id(c)] = (old[0], now)
+                else:
+                    self.seen[id(c)] = (weakref.ref(c), now)
+        for k in [k for k in self.seen if k not in live]:
+            del self.seen[k]
+
     def do(self, op):
+        self._do(op)
+        if not self.nocache:
+            self.track(op)
+
+    def _do(self, op):
         k = op[0]
         if k == "render":
             self.observe_render(op[1])
@@ -400,6 +434,10 @@ class Spec:
                 continue
             if now != snap:
                 V("handed-out-immutable", f"a canvas handed out earlier changed after {op!r}: {snap[2]}x{snap[3]} -> {now[2]}x{now[3]}", op[1] if op[0] == "mut" else op[0])
+        for wname, size, was, now, _op in st.alias_log:
+            V("cached-canvas-immutable", f"the cached canvas of a {wname} at size {size} changed from {was[0]}x{was[1]} to {now[0]}x{now[1]} (or in content) after {op!r}: "
+              "a canvas shared with a parent was modified in place", wname)
+        del st.alias_log[:]
         st.shape = st.cache_shape()
         if ctx.muted:
             return True
@@ -425,7 +463,7 @@ class Spec:
             st2 = St(cfg, nocache=False)
             for h in st.hist:
                 st2.do(h)
-            st.fx, st.held, st.outs = st2.fx, st2.held, st2.outs
+            st.fx, st.held, st.outs, st.seen = st2.fx, st2.held, st2.outs, st2.seen
             st.shape = st.cache_shape()
             ctx.distinct("nontrivial", (cfg, st.fx.describe(), st.shape))
         return True
